@@ -1,7 +1,12 @@
 """C08 — Crate contents are exactly the tracks added and not removed.  Assembled from a schema-1.x part and a schema-2.x part."""
 from props import _combine
 
-_combine.install(globals(), "C08", ["C08_v1", "C08_v2"], dict(
+_combine.install(globals(), "C08", [
+    "C08_v1",
+    "C08_v2",
+    "C08_lib1",
+    "C08_lib2",
+], dict(
     text="",
     note="see design/C08.md",
     technique="Lean 4 refinement / invariant theorems over executable models of both schema generations + "
